@@ -119,13 +119,12 @@ end
 
 /-- well-formed top-level container: additionally CheckSum(10) closes every group left open -/
 def wfTop (tbl : Tbl) (c : Cont) : Bool :=
-  wfNodes tbl none [] c && notOpen tag10 (openMembersCont tbl c) && !(contTags c).contains tag10
+  wfNodes tbl none [] c && notOpen tag10 (openMembersCont tbl c) && !(contTags c).contains tag10 &&
+    (tbl.members? tag10).isNone
 
-/-- the message type the decoder reports: value of the LAST plain tag 35 at any level it scans –
-for a well-formed top-level container simply the value of its tag 35 entry -/
-def mtypeOf (c : Cont) : Bytes :=
-  match List.find? (fun (n : Node) => n.tag == tag35) c with
-  | some (.leaf _ v) => v
-  | _ => [85, 78, 75, 78, 79, 87, 78]
+/-- the message type the decoder reports: the value of the LAST field with tag 35 it scans
+(at any nesting level), `"UNKNOWN"` when there is none -/
+def lastMtype (fs : List Fld) : Bytes :=
+  fs.foldl (fun acc f => if f.tag == tag35 then f.val else acc) [85, 78, 75, 78, 79, 87, 78]
 
 end AsyncFix.Model.Codec
